@@ -251,7 +251,8 @@ def r10_5(ctx):
         # every path -- R10.2 / R10.10 -- time-dependent guesses see the final horizon either way)
         ctx.check(ok, "Stage.set_initial orders prioritised guesses first", detail="ordering", expected="if priority: self._initial.move_to_end(var, last=False)", found="; ".join(ast.unparse(m) for m in mv), fi=g)
     sc = ctx.scope(f)
-    wt = [c for c in walk_no_nested(f.node) if is_call_to(c, "set_initial", "self._method") or is_call_to(c, "apply_initial", "self._method")]
+    wt = [c for c in walk_no_nested(f.node) if isinstance(c, ast.Call) and isinstance(c.func, ast.Attribute) and c.func.attr in ("set_initial", "apply_initial")
+          and isinstance(c.func.value, ast.Attribute) and c.func.value.attr == "_method"]
     nf = ctx.norm(f)
     ok = len(wt) == 1 and [nf.key(t) for t, p in sc.guards(wt[0]) if p] == [Norm(None).key(ast.parse("self.master is not None and self.master.is_transcribed", mode="eval").body)]
     fa = [c for c in walk_no_nested(f.node) if is_call_to(c, "for_all_primitives")]
@@ -421,7 +422,7 @@ def r10_10(ctx):
                     continue
                 recv = ast.unparse(c.func.value)
                 cands = []
-                if recv in ("self._method", "stage._method", "self.master._method"):
+                if recv in ("self._method", "stage._method", "self.master._method") or (isinstance(c.func.value, ast.Attribute) and c.func.value.attr == "_method" and isinstance(c.func.value.value, ast.Name)):
                     for cn in ["DirectMethod"] + P.subclasses("DirectMethod"):
                         g = P.resolve(cn, c.func.attr)
                         if g is not None:
@@ -439,3 +440,25 @@ def r10_10(ctx):
                   detail="a horizon guess given after transcription leaves T_local / t0_local at their old starting values (node times and time-dependent guesses disagree with the guessed horizon)",
                   expected="%s reachable from %s" % (owner.qualname, e.qualname), found="reaches: " + ", ".join(sorted(q for q in seen if "set_initial" in q or "initial" in q.lower())[:8]), fi=e,
                   sample={"entry": e.qualname, "owner": owner.qualname})
+
+
+@rule("R10.11", min_instances=1, desc="a guess given after transcription reaches every stage whose own guesses depend on it: Stage.set_initial re-applies the guess tables of the whole stage tree, as transcription does")
+def r10_11(ctx):
+    """`Tv = ocp.variable(); s = ocp.stage(T=Tv)`: the stage's time-dependent guesses are numbers computed from the guessed Tv.
+    At transcription every stage applies its table; a later ocp.set_initial(Tv, 8) must therefore re-apply the tables of the
+    stages too, not only the table of the stage it was called on."""
+    P = ctx.prog
+    f = P.own_method("Stage", "set_initial")
+    sc = ctx.scope(f)
+    wt = [c for c in walk_no_nested(f.node) if isinstance(c, ast.Call) and isinstance(c.func, ast.Attribute) and c.func.attr in ("apply_initial", "set_initial")
+          and ast.unparse(c.func.value).endswith("._method")]
+    ok = False
+    found = "; ".join(ast.unparse(c)[:90] for c in wt)
+    for c in wt:
+        loops = sc.enclosing_loops(c)
+        if loops and is_call_to(loops[-1][1], "iter_stages") and ctx.norm(f).key(loops[-1][1].func.value) == "self.master":
+            lv = ast.unparse(loops[-1][0])
+            ok = ast.unparse(c.func.value) == "%s._method" % lv and [ast.unparse(a) for a in c.args][:1] == ["%s._augmented" % lv] and ast.unparse(c.args[-1]) == "%s._initial" % lv \
+                and any(k.arg == "include_self" and ast.unparse(k.value) == "True" for k in loops[-1][1].keywords)
+    ctx.check(ok, "Stage.set_initial re-applies the guess tables of every stage of the tree", detail="only the table of the stage that was called is re-applied: stages whose guesses depend on the guessed symbol (an OCP-level variable used as their horizon) keep the numbers computed before",
+              expected="for s in self.master.iter_stages(include_self=True): s._method.apply_initial(s._augmented, self.master._method, s._initial)", found=found, fi=f)
